@@ -72,14 +72,16 @@ func layoutOf(s *StreamM) *layout {
 	return l
 }
 
-// mustForward: how many pass-through bytes must have been written once x[:p] was delivered:
-// every complete pass-through line, except that the last complete line may still be pending.
+// mustForward: how many pass-through bytes must have been written once x[:p] was delivered and
+// the source blocks: every complete pass-through line delivered so far (the statement's first
+// sentence, taken literally - a scanner may look at the next line to release the previous one,
+// but when the source blocks nothing complete may be held back).
 func (l *layout) mustForward(p int) int {
 	k := sort.SearchInts(l.lineEnds, p+1) // number of complete lines in x[:p]
-	if k < 2 {
+	if k < 1 {
 		return 0
 	}
-	return l.junkUpTo[l.lineEnds[k-2]]
+	return l.junkUpTo[l.lineEnds[k-1]]
 }
 
 func (l *layout) mustHaveReturned(p int) int {
@@ -131,7 +133,7 @@ func c11Oracle(c c11Case) error {
 	hr := &hookReader{data: l.x, pieces: c.Pieces}
 	hr.onRead = func(p int) error {
 		if need := l.mustForward(p); forwarded < need {
-			return fmt.Errorf("the source blocks after %d bytes: %d pass-through bytes of complete lines were delivered (not counting the last line) but only %d were written", p, need, forwarded)
+			return fmt.Errorf("the source blocks after %d bytes: %d pass-through bytes of complete lines were delivered but only %d were written", p, need, forwarded)
 		}
 		if need := l.mustHaveReturned(p); returned < need {
 			return fmt.Errorf("the source blocks after %d bytes: the line ending dump %d was delivered completely, yet scanning asks for more input instead of returning the snapshot", p, returned)
@@ -291,7 +293,7 @@ func c11PPOnce(c c11Case, limit time.Duration) error {
 	required := func(p int) int {
 		req := 0
 		k := sort.SearchInts(l.lineEnds, p+1)
-		for _, le := range l.lineEnds[:max(0, k-1)] {
+		for _, le := range l.lineEnds[:k] {
 			if o, ok := junkOut[le]; ok && o > req {
 				req = o
 			}
